@@ -71,6 +71,8 @@ type DatabaseI interface {
 type compactionAction struct {
 	pathsToCompact []string
 	totalRecords   uint64
+	// includesOldest is true when the selected run starts at the oldest table, only then tombstones can be dropped
+	includesOldest bool
 }
 
 type memStoreFlushAction struct {
